@@ -124,6 +124,8 @@ theorem nfInv_setBefore {e : Expr} (h : e.nfInv) {b : List Trivia} (hb : Alt b) 
   | lam n bcc g k body b' a => obtain ⟨h1, h2, h3, h4, h5, _, h7⟩ := h; exact ⟨h1, h2, h3, h4, h5, hb, h7⟩
   | un op e g bt b' a => obtain ⟨h1, h2, h3, h4, _, h6⟩ := h; exact ⟨h1, h2, h3, h4, hb, h6⟩
   | bin op l r x y b' a => obtain ⟨h1, h2, h3, h4, h5, _, h7⟩ := h; exact ⟨h1, h2, h3, h4, h5, hb, h7⟩
+  | ite => exact h.elim
+  | has => exact h.elim
 
 theorem nfInv_addAfter {e : Expr} (h : e.nfInv) (hc : closedT (e.effAfter false)) {ts : List Trivia} (hts : Alt ts) :
     (e.addAfter ts).nfInv := by
@@ -146,6 +148,8 @@ theorem nfInv_addAfter {e : Expr} (h : e.nfInv) (hc : closedT (e.effAfter false)
   | lam n bcc g k body b a => obtain ⟨h1, h2, h3, h4, h5, h6, h7⟩ := h; exact ⟨h1, h2, h3, h4, h5, h6, alt_append_closed h7 hc hts⟩
   | un op e g bt b a => obtain ⟨h1, h2, h3, h4, h5, h6⟩ := h; exact ⟨h1, h2, h3, h4, h5, alt_append_closed h6 hc hts⟩
   | bin op l r x y b a => obtain ⟨h1, h2, h3, h4, h5, h6, h7⟩ := h; exact ⟨h1, h2, h3, h4, h5, h6, alt_append_closed h7 hc hts⟩
+  | ite => exact h.elim
+  | has => exact h.elim
 
 theorem closedT_append {a b : List Trivia} (ha : closedT a) (hb : closedT b) : closedT (a ++ b) := by
   rcases hb with h | ⟨c, hc⟩
